@@ -82,7 +82,8 @@ def zero_cases():
 def run_csvzero(pa, case, d):
     import csv
     path = os.path.join(d, "z.csv")
-    rows = [["a", "x", 0, 1], ["a", "y", 2, 2], ["b", "x", 1.5, 3], ["b", "z", 4.0, 4.0]]
+    # labels y / z and annotator c appear on zero-length rows only
+    rows = [["a", "x", 0, 1], ["a", "y", 2, 2], ["b", "x", 1.5, 3], ["b", "z", 4.0, 4.0], ["c", "x", 7, 7]]
     with open(path, "w", newline="") as f:
         csv.writer(f, delimiter=case["delim"]).writerows(rows)
     probs = []
@@ -95,6 +96,8 @@ def run_csvzero(pa, case, d):
             want = {"annotators": [["a", [[0.0, 1.0, "x"]]], ["b", [[1.5, 3.0, "x"]]]]}
             if got != want:
                 probs.append(f"zero-length rows not discarded properly: {got}")
+            elif list(c.categories) != ["x"]:
+                probs.append(f"discarded zero-length rows left their labels in the categories: {list(c.categories)}")
         return probs, continuum_to_spec(c)
     except ValueError as e:
         if case["discard"]:
